@@ -1,6 +1,7 @@
 package rv
 
 import (
+	"fmt"
 	"go/token"
 	"strings"
 
@@ -10,11 +11,12 @@ import (
 func init() {
 	Registry["C19"] = RuleDef{Module: ".", Run: runC19,
 		Technique:   "bounds prover on the topology parsers, guard and must-pass rules on the slot-table writers and redirect paths, emission-order rule for ASKING",
-		Explanation: "Decides (R19a) that every index/slice expression in parseSlots, parseShards and parseEndpoint is in bounds on every path (one reviewed exception: g.nodes[m] after m recorded the length before an append); (R19b) that in parseShards a node is added only when healthy and with a usable endpoint, that the index recorded for the primary is the index of a node that is appended on every path (so an unhealthy or endpoint-less primary can never make a replica the group's primary), that parseSlots skips groups whose primary has no endpoint, and that _refresh puts the group's primary g.nodes[0] into the slot table except in the ReplicaOnly arm; (R19c) that every MOVED/ASK re-send in do, doCache, DoMulti and DoMultiCache is behind the redirect counter and the MaxMovedRedirections exit; (R19d) that an ASK redirect sends ASKING immediately before the redirected command or MULTI; (R19e) that redirectOrNew writes the slot table only for MOVED with a real slot.",
+		Explanation: "Decides (R19a) that every index/slice expression in parseSlots, parseShards and parseEndpoint is in bounds on every path (one reviewed exception: g.nodes[m] after m recorded the length before an append); (R19b) that in parseShards a node is added only when healthy and with a usable endpoint, that the index recorded for the primary is the index of a node that is appended on every path (so an unhealthy or endpoint-less primary can never make a replica the group's primary), that parseSlots skips groups whose primary has no endpoint, and that _refresh puts the group's primary g.nodes[0] into the slot table except in the ReplicaOnly arm; (R19c) that every MOVED/ASK re-send in do, doCache, DoMulti and DoMultiCache is behind the redirect counter and the MaxMovedRedirections exit; (R19d) that an ASK redirect sends ASKING immediately before the redirected command or MULTI; (R19e) that redirectOrNew writes the slot table only for MOVED with a real slot. (R19f) in the topology parsers a master's entry that was modified in a local copy is stored back into the map before the next element is examined; (R19g) every answer of shouldRefreshRetry that makes the caller redirect or retry - transport errors included - has scheduled a topology refresh.",
 		NotDecided:  "destination correctness under concurrent topology change; the table-building arithmetic of _refresh beyond its explicit range guards; the final reply returned after redirects."}
 }
 
 func runC19(r *Report) {
+	topologyParseRules(r)
 	p := r.P
 	// R19a
 	reviewed := map[string]string{}
@@ -464,4 +466,135 @@ func roleVerifiedOnSuccess(r *Report, rule string) {
 		r.ObSite(rule, Site{fn, b, len(b.Instrs) - 1, ret}, "success-without-role-probe", !success || stopped, "a switch may report success without asking the target for its ROLE only when the client is stopped; otherwise a demoted master (or promoted replica) that a stale sentinel still names keeps receiving traffic")
 	}
 	r.Anchor(rule, "returns of _switchTarget", n >= 3)
+}
+
+// topologyParseRules (R19f): the topology parsers build each master's entry in a local copy of the
+// map value; every modification of the copy is written back to the map before the next reply
+// element is looked at (a copy that is only modified loses the slot range). (R19g) whenever
+// shouldRefreshRetry tells its caller to redirect or retry it has scheduled a topology refresh -
+// for transport errors too: a dead primary never sends MOVED.
+func topologyParseRules(r *Report) {
+	n := 0
+	for _, name := range []string{"rueidis.parseSlots", "rueidis.parseShards"} {
+		fn := r.FnAnchor("R19f", name)
+		if fn == nil {
+			continue
+		}
+		for _, s := range Sites(fn, func(in ssa.Instruction) bool { _, ok := in.(*ssa.Store); return ok }) {
+			st := s.Instr.(*ssa.Store)
+			t, _, base, isf := FieldRef(st.Addr)
+			if !isf || !strings.HasSuffix(t, "rueidis.group") {
+				continue
+			}
+			al, isal := Strip(base).(*ssa.Alloc)
+			if !isal {
+				continue
+			}
+			// only copies of a map entry (the slot filled from a lookup of the groups map); a fresh
+			// value that is conditionally inserted (parseShards: shards without a master are
+			// skipped) is not a copy
+			isCopy := false
+			for _, u := range Uses(al) {
+				if st2, ok := u.(*ssa.Store); ok && st2.Addr == ssa.Value(al) {
+					if ex, isex := st2.Val.(*ssa.Extract); isex {
+						if lk, islk := ex.Tuple.(*ssa.Lookup); islk && strings.Contains(shortType(lk.X.Type()), "rueidis.group") {
+							isCopy = true
+						}
+					}
+					if lk, islk := st2.Val.(*ssa.Lookup); islk && strings.Contains(shortType(lk.X.Type()), "rueidis.group") {
+						isCopy = true
+					}
+				}
+			}
+			if !isCopy {
+				continue
+			}
+			n++
+			written := func(w Site) bool {
+				mu, ok := w.Instr.(*ssa.MapUpdate)
+				if !ok || !strings.Contains(shortType(mu.Map.Type()), "rueidis.group") {
+					return false
+				}
+				u, isu := mu.Value.(*ssa.UnOp)
+				return isu && u.Op == token.MUL && u.X == ssa.Value(al)
+			}
+			// the element loop: the innermost loop containing the lookup of the entry
+			var elemLoop *ssa.BasicBlock
+			for _, ls := range Sites(fn, func(in ssa.Instruction) bool {
+				lk, ok := in.(*ssa.Lookup)
+				return ok && strings.Contains(shortType(lk.X.Type()), "rueidis.group")
+			}) {
+				elemLoop = outerLoopOf(fn, ls.Block)
+			}
+			lost, _ := Reaches(s, func(w Site) bool {
+				return isReturn(w.Instr) || (elemLoop != nil && w.Block == elemLoop && w.Idx == 0)
+			}, written)
+			r.ObSite("R19f", s, "modified-entry-written-back", !lost, "a master's entry modified in a local copy is stored back into the groups map before the next element / the return")
+		}
+	}
+	r.Anchor("R19f", "modifications of copied map entries in the topology parsers (>= 3)", n >= 3)
+
+	if fn := r.FnAnchor("R19g", "rueidis.(*clusterClient).shouldRefreshRetry"); fn != nil {
+		isRefresh := func(in ssa.Instruction) bool { _, ok := CallTo(in, "rueidis.(*clusterClient).lazyRefresh"); return ok }
+		ok := true
+		why := ""
+		nPaths, nActive := 0, 0
+		complete := EnumBlockPaths(fn, 5000, func(path []*ssa.BasicBlock) {
+			// skip paths that contradict themselves: a branch on `phi <op> const` whose phi resolves,
+			// on this very path, to a constant that decides the branch the other way
+			for i := 0; i+1 < len(path); i++ {
+				iff, isif := path[i].Instrs[len(path[i].Instrs)-1].(*ssa.If)
+				if !isif || len(path[i].Succs) != 2 {
+					continue
+				}
+				cmp, iscmp := iff.Cond.(*ssa.BinOp)
+				if !iscmp || (cmp.Op != token.NEQ && cmp.Op != token.EQL) {
+					continue
+				}
+				a, oka := ConstInt(ResolveOnPath(cmp.X, path[:i+1]))
+				b, okb := ConstInt(ResolveOnPath(cmp.Y, path[:i+1]))
+				if !oka || !okb {
+					continue
+				}
+				truth := (a == b) == (cmp.Op == token.EQL)
+				if (path[i+1] == path[i].Succs[0]) != truth {
+					return
+				}
+			}
+			nPaths++
+			ret := path[len(path)-1].Instrs[len(path[len(path)-1].Instrs)-1].(*ssa.Return)
+			rv := RetVals(ret)
+			mode := ResolveOnPath(rv[len(rv)-1], path)
+			if k, isc := ConstInt(mode); isc && k == 0 {
+				return
+			}
+			nActive++
+			has := false
+			for _, b := range path {
+				for _, in := range b.Instrs {
+					if isRefresh(in) {
+						has = true
+					}
+				}
+			}
+			if !has {
+				ok, why = false, "a path answers "+Desc(mode)+" without scheduling a refresh"
+			}
+		})
+		r.Ob("R19g", fn, "redirect-or-retry-schedules-refresh", fn.Pos(), ok && complete && nActive >= 3, fmt.Sprintf("every path that tells the caller to redirect or retry (%d of %d paths) has called lazyRefresh; %s", nActive, nPaths, why))
+	}
+}
+
+// outerLoopOf returns the innermost loop header whose natural loop contains b.
+func outerLoopOf(fn *ssa.Function, b *ssa.BasicBlock) *ssa.BasicBlock {
+	var best *ssa.BasicBlock
+	for _, h := range fn.Blocks {
+		if !IsLoopHeader(h) || !h.Dominates(b) || !reachesBlock(b, h) {
+			continue
+		}
+		if best == nil || best.Dominates(h) {
+			best = h
+		}
+	}
+	return best
 }
